@@ -27,6 +27,17 @@ type env struct {
 	gomod   string
 }
 
+// Env is what engine B reuses from this engine: scratch copy, real CLI, user module.
+type Env struct {
+	Scratch, Repo, CLI, Mod string
+}
+
+// PrepareEnv builds the scratch copy, the real generator and the user module.
+func PrepareEnv() *Env {
+	e := prepare()
+	return &Env{Scratch: e.scratch, Repo: e.repo, CLI: e.cli, Mod: e.mod}
+}
+
 // prepare copies the working tree and builds the real generator from it.
 func prepare() *env {
 	e := &env{scratch: drv.Scratch("enga")}
